@@ -353,11 +353,13 @@ func init() {
 		st1.ghost["perminv"] = Sc{inv, arrSort(SInt, SInt)}
 		// sortedness w.r.t. the less closure
 		if fl, ok := ast.Unparen(n.Args[1]).(*ast.FuncLit); ok {
+			x.havocAliases(st1, s, n.Args[0], "")
 			st2 := x.assign(n.Args[0], ns, st1)
 			less := func(a, b string) string { return x.pureClosure(fl, []Val{scInt(a), scInt(b)}, st2).(Sc).T }
 			c.assumeHere(tForall([][2]string{{"j!a", SInt}, {"j!b", SInt}}, tImp(tAnd(tLe("0", "j!a"), tLt("j!a", "j!b"), tLt("j!b", s.Len)), tNot(less("j!b", "j!a")))))
 			return Tup{}, st2
 		}
+		x.havocAliases(st1, s, n.Args[0], "")
 		return Tup{}, x.assign(n.Args[0], ns, st1)
 	})
 	reg("sort.Ints", "sorts the int slice in place in increasing order (a permutation of the old contents)", func(x *Exec, n *ast.CallExpr, recv ast.Expr, st *State) (Val, *State) {
@@ -375,6 +377,7 @@ func init() {
 		// the same fact read from the old slice (a consequence; gives the solver the new position of an old element)
 		c.assumeHere(tForall([][2]string{{"i!p", SInt}}, tImp(tAnd(tLe("0", "i!p"), tLt("i!p", s.Len)),
 			tEq(tSel(oa, tAdd(s.Off, "i!p")), tSel(na, tAdd(s.Off, tSel(inv, "i!p"))))), tSel(oa, tAdd(s.Off, "i!p"))))
+		x.havocAliases(st1, s, n.Args[0], "")
 		return Tup{}, x.assign(n.Args[0], ns, st1)
 	})
 	reg("sort.Strings", "sorts the string slice in place: a permutation of the old contents (the order itself is not modelled)", func(x *Exec, n *ast.CallExpr, recv ast.Expr, st *State) (Val, *State) {
@@ -392,6 +395,7 @@ func init() {
 			tEq(tSel(oa, tAdd(s.Off, "i!p")), tSel(na, tAdd(s.Off, tSel(inv, "i!p"))))), tSel(oa, tAdd(s.Off, "i!p"))))
 		st1.ghost["perm"] = Sc{perm, arrSort(SInt, SInt)}
 		st1.ghost["perminv"] = Sc{inv, arrSort(SInt, SInt)}
+		x.havocAliases(st1, s, n.Args[0], "")
 		return Tup{}, x.assign(n.Args[0], ns, st1)
 	})
 	reg("regexp.MustCompile", "compiles the (constant) pattern; the constant pattern \\S+ is recognised: its matches in a string s are the canonical token functions wsN(s) / wsF(s, j) of specs/45smtext.spec", func(x *Exec, n *ast.CallExpr, recv ast.Expr, st *State) (Val, *State) {
